@@ -241,7 +241,9 @@ func run(t vt.Failer, top *fn, fatal bool) {
 	}
 	vt.Class("top-level body ends with " + last)
 	if nontrivial(top) {
-		vt.NonTrivial(c.Src, func() any { return map[string]string{"program": c.Src, "expected_output": c.WantOut, "expected_result": c.WantRes} })
+		vt.NonTrivial(c.Src, func() any {
+			return map[string]string{"program": c.Src, "expected_output": c.WantOut, "expected_result": c.WantRes}
+		})
 	}
 	if sig == "" {
 		return
